@@ -1,7 +1,7 @@
 /-
   A concrete configuration and history used by the non-vacuity examples of Props/C13.lean.
 -/
-import KavaVerif.Proofs.Bep3Live
+import KavaVerif.Proofs.Bep3Period
 set_option linter.unusedSimpArgs false
 set_option linter.unusedVariables false
 
